@@ -48,6 +48,8 @@ pub enum IoOp {
     /// `Extend<&u8>` (only meaningful for Copy element types, so it lives in this engine)
     ExtendRef(u32),
     FillBufConsume(Amt),
+    /// BufRead::read_until with a delimiter taken from position k of the contents (or absent)
+    ReadUntil(Amt),
 }
 
 #[derive(Debug, Clone, PartialEq, Eq, Hash, Serialize, Deserialize)]
@@ -94,6 +96,7 @@ pub trait ByteDeq {
     fn s_read_exact(&mut self, d: &mut [u8]) -> std::io::Result<()>;
     fn s_read_to_end(&mut self, v: &mut Vec<u8>) -> std::io::Result<usize>;
     fn s_write_fmt(&mut self, s: &str) -> std::io::Result<()>;
+    fn s_read_until(&mut self, delim: u8, v: &mut Vec<u8>) -> std::io::Result<usize>;
     // embedded-io (Err(String) = returned an error; None = Pending for async)
     fn e_write(&mut self, api: Api, s: &[u8]) -> Option<Result<usize, String>>;
     fn e_flush(&mut self, api: Api) -> Option<Result<(), String>>;
@@ -178,6 +181,9 @@ impl<const N: usize> ByteDeq for CircularBuffer<N, u8> {
     }
     fn s_write_fmt(&mut self, s: &str) -> std::io::Result<()> {
         write!(self, "{}", s)
+    }
+    fn s_read_until(&mut self, delim: u8, v: &mut Vec<u8>) -> std::io::Result<usize> {
+        BufRead::read_until(self, delim, v)
     }
     #[allow(unused_variables)]
     fn e_write(&mut self, api: Api, s: &[u8]) -> Option<Result<usize, String>> {
@@ -601,6 +607,27 @@ pub fn run_io_case(case: &IoCase) -> Result<u64, String> {
                     model.drain(..k);
                 }
             }
+            IoOp::ReadUntil(k) => {
+                if api != Api::Std {
+                    continue;
+                }
+                let p = k.resolve(len);
+                // a delimiter that occurs in the contents (at position p) or one that does not
+                let delim = if p < len { model[p] } else { 0xFE };
+                let want: Vec<u8> = match model.iter().position(|b| *b == delim) {
+                    Some(i) => model[..=i].to_vec(),
+                    None => model.clone(),
+                };
+                let mut v = vec![9u8];
+                let r = guard("read_until", || a.b.s_read_until(delim, &mut v))?.map_err(|e| e.to_string());
+                if r != Ok(want.len()) || v[1..] != want[..] || v[0] != 9 {
+                    return Err(ctx(format!("read_until({delim}) returned {:?} and delivered {:?}, expected {:?}", r, &v[1..], want)));
+                }
+                if want.len() < len {
+                    flags |= iofl::PARTIAL;
+                }
+                model.drain(..want.len());
+            }
             IoOp::Consume(k) => {
                 let k = k.resolve(len);
                 if k > len {
@@ -658,6 +685,7 @@ pub fn enum_ops(n: usize, len: usize) -> Vec<IoOp> {
     for k in amts(len) {
         ops.push(IoOp::Consume(k));
         ops.push(IoOp::FillBufConsume(k));
+        ops.push(IoOp::ReadUntil(k));
     }
     ops
 }
@@ -703,7 +731,8 @@ pub fn io_case_strategy(api: Api, max_ops: usize) -> proptest::strategy::BoxedSt
                 1 => Just(IoOp::ReadToEnd),
                 3 => Just(IoOp::FillBuf),
                 4 => amt.clone().prop_map(IoOp::Consume),
-                4 => amt.prop_map(IoOp::FillBufConsume),
+                4 => amt.clone().prop_map(IoOp::FillBufConsume),
+                2 => amt.prop_map(IoOp::ReadUntil),
                 1 => Just(IoOp::Flush),
             ];
             (Just(n), any::<u16>(), any::<u16>(), 0u8..3, proptest::sample::select(vec![0u8, 0xFF, 0x5A]), proptest::collection::vec(op, 0..=max_ops))
